@@ -62,6 +62,10 @@ def run_property(prop, tier, write=True):
         rep.count("bodies_in_crate", st["bodies"])
         rep.count("blocks_in_crate", st["blocks"])
         rep.count("call_sites_in_crate", st["call_sites"])
+        rep.count("user_written_unsafe_blocks_in_crate", st["unsafe_blocks"])
+        if st["unsafe_blocks"]:
+            rep.notes.append("ASSUMPTION BROKEN: %d user-written unsafe block(s) in the crate; ownership / lock arguments of the rules assume none"
+                             % st["unsafe_blocks"])
         total.merge(rep)
     extra = {}
     if tier == "thorough":
